@@ -9,6 +9,7 @@ import (
 
 	"verif/harness/drv"
 	"verif/harness/gen"
+	"verif/harness/memconn"
 )
 
 func init() {
@@ -300,4 +301,52 @@ func c08Wire(c *Ctx) {
 	}
 	c.Res.Traces++
 	c.RunCases(cases)
+	c08Reconnect(c)
+}
+
+// c08Reconnect: a line of caller text is cut short by the end of the connection (the peer stops reading in the middle of it
+// and the socket is closed under the blocked write); the same client connects again. Every line on the NEW connection is
+// one the client was asked to send on it: the first bytes the server sees are the registration, not the rest of the old line.
+func c08Reconnect(c *Ctx) {
+	for k := 0; k < c.Pick(2, 6); k++ {
+		text := c.R.Pick("QUIT :thanks for all the fish", "KICK #chan victim", "OPER root hunter2")
+		cut := c.R.Range(12, 16) // "PRIVMSG #c :" is 12 bytes: the rest of the line is the caller's text alone
+		desc := fmt.Sprintf("Privmsg(#c, %q) cut short after %d bytes by the end of the connection, then the same client connects again", text, cut)
+		c.Journal("C08 " + desc)
+		sess, err := newSession(nil, nil)
+		if err != nil {
+			c.Res.Inconclusive++
+			continue
+		}
+		sess.srv.WaitLines(2, 2*time.Second)
+		sess.sync(5 * time.Second)
+		sess.srv.StallNextWrite(cut, time.Hour)
+		sess.conn.Privmsg("#c", text)
+		time.Sleep(5 * time.Millisecond)
+		if !sess.close() {
+			c.SpecFail("spec", desc, "", "Close did not return", map[string]interface{}{"op": "cut-line-then-reconnect", "text_hex": drv.H(text), "cut": cut})
+			continue
+		}
+		if !waitFor(func() bool { return !sess.conn.Connected() }, 5*time.Second) || sess.conn.Connect() != nil {
+			c.Res.Inconclusive++
+			continue
+		}
+		var srv2 *memconn.Conn
+		select {
+		case srv2 = <-sess.conns:
+		case <-time.After(3 * time.Second):
+			c.Res.Inconclusive++
+			continue
+		}
+		srv2.WaitLines(2, 3*time.Second)
+		raw := srv2.Raw()
+		sess.conn.Close()
+		c.Res.Traces++
+		c.Res.Evaluations++
+		c.Dist("cut-line-then-reconnect")
+		if want := "NICK me\r\nUSER ident 12 * :Real Name\r\n"; raw != want {
+			c.SpecFail("spec", desc, "", fmt.Sprintf("the new connection's first bytes are %q ; the client was asked to send nothing on it but its registration %q", trunc(raw, 120), want),
+				map[string]interface{}{"op": "cut-line-then-reconnect", "text_hex": drv.H(text), "cut": cut, "wire_hex": drv.H(raw)})
+		}
+	}
 }
